@@ -80,4 +80,6 @@ def random_net(rng, n_inputs=None, k_gates=None, alphabet=ALL_TYPES, max_nary=4,
 
 
 def rng_for(seed, *salt):
-    return random.Random(hash((seed,) + tuple(salt)) & 0xffffffff)
+    import hashlib
+    h = hashlib.sha256(repr((seed,) + tuple(salt)).encode()).digest()
+    return random.Random(int.from_bytes(h[:8], 'big'))
